@@ -78,6 +78,7 @@ type methodSet map[string]*ssa.Function
 
 // State shared between all interpreted goroutines.
 type interpreter struct {
+	bigForce           bool                   // big.Int externals must use the model (guarded in-place update)
 	osArgs             []value                // the value of os.Args
 	prog               *ssa.Program           // the SSA program
 	globals            map[*ssa.Global]*value // addresses of global variables (immutable)
@@ -362,7 +363,7 @@ func visitInstr(fr *frame, instr ssa.Instruction) continuation {
 
 	case *ssa.FieldAddr:
 		if sp, ok := fr.get(instr.X).(symPtr); ok {
-			np := symPtr{}
+			np := symPtr{ordered: sp.ordered}
 			for _, a := range sp.alts {
 				np.alts = append(np.alts, ptrAlt{a.c, &(*a.p).(structure)[instr.Field]})
 			}
@@ -389,6 +390,9 @@ func visitInstr(fr *frame, instr ssa.Instruction) continuation {
 			}
 			fr.env[instr] = &x[fr.i.indexInt(idx, len(x))]
 		case symPtr: // one of several *array
+			if x.ordered {
+				panic(engineError("index through an ordered symbolic pointer"))
+			}
 			np := symPtr{}
 			for _, a := range x.alts {
 				arr := (*a.p).(array)
